@@ -1,4 +1,6 @@
 import XalanModel.C15.KeysProofs
+import XalanModel.C15.StripProofs
+import XalanModel.C15.ConcreteProofs
 import XalanModel.Generated.C15_FunctionKey
 import XalanModel.Generated.C15_ExecContext
 /-!
@@ -80,6 +82,47 @@ theorem key_lookup_total (idx : ν → Nat) (isDoc : ν → Bool) (decls : List 
     ((KeyTable.create idx isDoc t decls).getNodeSetByKey name value).isSome = declared decls name := by
   rw [key_spec idx isDoc decls t hidx hdoc]
   cases declared decls name <;> rfl
+
+/-- **key() and xsl:strip-space**: when the match patterns never accept a stripped node (what Xalan's strip-aware
+`NodeTester` provides; `s` marks whitespace-only text nodes of elements whose whitespace is stripped — leaves, never
+the top node or an attribute), the table the constructor builds by walking the *parsed* tree answers exactly as the
+specification does on the *stripped* tree: the stripped nodes are as if they were not there (XSLT 1.0 §3.4). -/
+theorem key_spec_strip (idx : ν → Nat) (isDoc : ν → Bool) (decls : List (KeyDecl κ ν)) (t : Tree ν) (s : ν → Bool)
+    (hidx : t.docOrder.Pairwise (fun a b => idx a < idx b)) (hdoc : DocMin idx isDoc t.docOrder)
+    (hs : Tree.StripOK s t) (hm : ∀ kd ∈ decls, ∀ n, s n = true → kd.isMatch n = false)
+    (name : κ) (value : String) :
+    (KeyTable.create idx isDoc t decls).getNodeSetByKey name value =
+      if declared decls name then some ((Tree.strip s t).docOrder.filter (hasKey decls name value)) else none := by
+  rw [key_spec idx isDoc decls t hidx hdoc, Tree.docOrder_strip s t hs, List.filter_filter]
+  congr 2
+  apply List.filter_congr
+  intro n _
+  cases hsn : s n with
+  | false => simp
+  | true =>
+    have : hasKey decls name value n = false := by
+      rw [Bool.eq_false_iff]
+      intro h
+      simp only [hasKey, List.any_eq_true, Bool.and_eq_true] at h
+      obtain ⟨kd, hkd, ⟨_, hmk⟩, _⟩ := h
+      rw [hm kd hkd n hsn] at hmk
+      exact absurd hmk (by simp)
+    simp [this]
+
+example : Tree.StripOK (fun n : Nat => n == 5) exTree ∧
+    (Tree.strip (fun n : Nat => n == 5) exTree).docOrder = [0, 3, 4, 7, 8] := by
+  refine ⟨?_, by decide⟩
+  simp [exTree, Tree.StripOK, Tree.StripOKForest, Tree.self, Tree.attrs, Tree.kids]
+
+omit [DecidableEq κ] [DecidableEq δ] in
+/-- **Which tree answers** (`getKeyNode`): from any context node — in a source document (`getOwnerDocument()`) or
+in a result tree fragment (the climb to the `DOCUMENT_FRAGMENT_NODE`) — the key node is the top of the tree the
+context node lies in, so `key()` on a fragment consults the table of that fragment and nothing else. -/
+theorem key_node_is_tree_top (t : Tree ν) (ctx : List (Frame ν)) :
+    Loc.keyNode ctx.length ⟨t, ctx⟩ = ⟨Loc.rebuild t ctx, []⟩ :=
+  keyNode_eq_top ctx t ctx.length (Nat.le_refl _)
+
+example : Loc.keyNode 2 ⟨Tree.mk 5 [] [], [⟨3, [4], [], []⟩, ⟨0, [], [], [Tree.mk 7 [8] []]⟩]⟩ = ⟨exTree, []⟩ := rfl
 
 omit [DecidableEq κ] in
 /-- **Merged declarations**: after `postConstruction` the root's declaration vector contains exactly the
@@ -301,5 +344,52 @@ example : cxEnv.Indexed := by
     subst this; exact Nat.zero_le _
 example : runCalls cxEnv false [] [⟨0, "k", .str "x"⟩, ⟨1, "k", .nodeset ["", "x"]⟩, ⟨0, "zz", .str ""⟩, ⟨0, "k", .str ""⟩] =
     [some [], some [1], none, some [1]] := by decide
+
+/-! ### the abstract parameters instantiated: concrete documents, patterns and `use` expressions of the generated fragment -/
+section ConcreteInstance
+open XalanModel.C15.Concrete
+
+/-- the `xsl:key` declarations of a stylesheet, as texts' parse results: name, match pattern, use expression -/
+abbrev CDecl := String × List PathPat × UseExpr
+
+/-- **key_spec for concrete documents and concrete declarations** — no hypothesis left: for every parsed document
+(`Doc.ofRaw`, any tree of elements, attributes, text, comments, PIs), every list of declarations whose `match` is a
+pattern and whose `use` is an expression of the generated fragment (`Concrete.matchPattern`, `Concrete.evalUse`: unions,
+`/`, `//`, attribute/text/node tests, boolean and positional predicates; paths incl. `..`, `//`, `namespace::*`,
+`string()`, `count()`, `concat()`, `name()`, `position()`), every name and value, the table built by the transcribed
+constructor answers with the document-order list of the nodes that match the pattern of a declaration of that name
+and have the value among the string values of its `use`. -/
+theorem key_spec_concrete (k : Nat) (r : Raw) (docs : Nat → Doc) (posZero : Bool) (cdecls : List CDecl)
+    (name value : String) :
+    let d := Doc.ofRaw k r
+    let decls := cdecls.map fun c => mkDecl posZero docs c.1 c.2.1 c.2.2
+    (KeyTable.create (fun n : CNode => n.idx) isDocNode d.tree decls).getNodeSetByKey name value =
+      if cdecls.any (fun c => c.1 = name) then
+        some (d.tree.docOrder.filter fun n => cdecls.any fun c =>
+          decide (c.1 = name) && matchPattern (docs n.doc) c.2.1 n &&
+            (match evalUse posZero (docs n.doc) c.2.2 n with
+             | .str s => decide (s = value)
+             | .nodeset vals => vals.contains value))
+      else none := by
+  intro d decls
+  rw [key_spec (fun n : CNode => n.idx) isDocNode decls d.tree (ofRaw_indexed k r) (ofRaw_docMin k r) name value]
+  have hd : declared decls name = cdecls.any (fun c => decide (c.1 = name)) := by
+    simp only [decls, declared, List.any_map]; rfl
+  have hk : hasKey decls name value = fun n => cdecls.any fun c =>
+      decide (c.1 = name) && matchPattern (docs n.doc) c.2.1 n &&
+        (match evalUse posZero (docs n.doc) c.2.2 n with
+         | .str s => decide (s = value)
+         | .nodeset vals => vals.contains value) := by
+    funext n
+    simp only [decls, hasKey, List.any_map]; rfl
+  rw [hd, hk]
+
+/-- the concrete documents satisfy `Env.Indexed`: every theorem above that assumes it (`key_call_spec`,
+`key_nodeset_union`, `key_calls_spec`, `key_context_document_spec`) applies to the environments the driver builds -/
+theorem concrete_env_indexed (raws : Nat → Raw) (decls : List (KeyDecl String CNode)) :
+    (⟨decls, fun k => (Doc.ofRaw k (raws k)).tree, fun n => n.idx, isDocNode⟩ : Env String CNode Nat).Indexed :=
+  fun k => ⟨ofRaw_indexed k (raws k), ofRaw_docMin k (raws k)⟩
+
+end ConcreteInstance
 
 end XalanModel.Props.C15
